@@ -169,7 +169,12 @@ def run(pid, tier, seed, replay=None):
     rbxv(["dom-drive", "--seed", seed, "--episodes", episodes, "--steps", steps, "--maxref", 20, "--slots", 1],
          stdout_path=trace_c)
 
-    traces = [trace_b, trace_c]
+    # the same driver with three Ref properties per instance (null, inside and outside targets side by side)
+    trace_c3 = os.path.join(OUT, "%s_drive3_trace.ndjson" % pid)
+    rbxv(["dom-drive", "--seed", seed + 17, "--episodes", max(40, episodes // 3), "--steps", steps, "--maxref", 20, "--slots", 3],
+         stdout_path=trace_c3)
+
+    traces = [trace_b, trace_c, trace_c3]
     if pid == "C12":
         # reader paths: DOMs produced by the binary and XML readers from files with duplicate UniqueIds
         trace_d = os.path.join(OUT, "%s_decoded_trace.ndjson" % pid)
@@ -179,11 +184,14 @@ def run(pid, tier, seed, replay=None):
     cfg = os.path.join(OUT, "WeakDomTrace.cfg")
     write_cfg(cfg, "TraceSpec", dict(MaxRef=20, NumDoms=2, NumSlots=1),
               invariants="WellFormed UidDistinct UidSetExact UidSeen")
+    cfg3 = os.path.join(OUT, "WeakDomTrace3.cfg")
+    write_cfg(cfg3, "TraceSpec", dict(MaxRef=20, NumDoms=2, NumSlots=3),
+              invariants="WellFormed UidDistinct UidSetExact UidSeen")
     total_events = total_eps = 0
     nontrivial = set()
     others = 0
     for trace in traces:
-        res = validate_trace("WeakDomTrace", cfg, trace)
+        res = validate_trace("WeakDomTrace", cfg3 if trace == trace_c3 else cfg, trace)
         total_events += res["events"]
         total_eps += res["episodes"]
         for shard, text, tail in res["violations"]:
